@@ -2,7 +2,7 @@
    computes it: the comma parts of the three BibTeX name forms, the brace level of a character,
    the case of a token ("its first brace-level-0 letter or special character"), and the
    brace-level tokenizer.  No proofs here. *)
-From Pybtex Require Import Base.Prelude Base.PyChar Base.PyStr.
+From Pybtex Require Import Base.Prelude Base.PyChar Base.PyStr Model.NamesUni.
 
 (* ---- the comma parts: "von Last, First" has two, "von Last, Jr, First" three; with more commas
         everything after the second comma counts as the First part (re-joined with single spaces) ---- *)
@@ -17,7 +17,8 @@ Definition brace_level_after (s : str) : nat := fold_left bl_step s 0.
 (* every opened brace is closed again *)
 Definition closed (s : str) : Prop := brace_level_after s = 0.
 
-(* ---- the case of a token ----
+(* ---- the case of a token ---- (letters and their case: the table-driven classes of Model/NamesUni.v =
+   Python's str.isalpha/islower; a caseless letter -- Hebrew, CJK ... -- is a letter that is not lowercase)
    A special character is a '{' at brace level 0 immediately followed by a backslash; it extends
    to the matching '}' (or to the end of the token).  Its case is that of the first letter after
    its control sequence (backslash + letters, or backslash + one non-letter). *)
@@ -30,9 +31,9 @@ Fixpoint special_body (s : str) (d : nat) : str :=    (* the text up to the brac
     else c :: special_body t d
   end.
 Fixpoint first_letter_lower (s : str) : bool :=
-  match s with [] => false | c :: t => if is_alpha c then is_lower c else first_letter_lower t end.
+  match s with [] => false | c :: t => if uni_is_alpha c then uni_is_lower c else first_letter_lower t end.
 Fixpoint skip_control_word (s : str) : str :=
-  match s with [] => [] | c :: t => if is_alpha c then skip_control_word t else t end.
+  match s with [] => [] | c :: t => if uni_is_alpha c then skip_control_word t else t end.
 (* [body] starts with the backslash *)
 Definition special_is_lower (body : str) : bool := first_letter_lower (skip_control_word (skipn 1 body)).
 
@@ -48,31 +49,12 @@ Fixpoint token_case (s : str) (d : nat) : option bool :=
       end
     else if N.eqb c c_rbrace then token_case t (pred d)
     else match d with
-         | O => if is_alpha c then Some (is_lower c) else token_case t d
+         | O => if uni_is_alpha c then Some (uni_is_lower c) else token_case t d
          | _ => token_case t d
          end
   end.
 (* a "von" token is a lowercase token *)
 Definition spec_is_von (tok : str) : bool := match token_case tok 0 with Some b => b | None => false end.
-
-(* no backslash at brace level 1 (inside a group that is not a special character) before the
-   character that decides the case -- the hypothesis of token_case_rule_partial (finding FC04a) *)
-Fixpoint no_stray_backslash (s : str) (d : nat) : bool :=
-  match s with
-  | [] => true
-  | c :: t =>
-    if N.eqb c c_lbrace then
-      match d, t with
-      | O, b :: _ => if N.eqb b c_bslash then true else no_stray_backslash t (S d)
-      | _, _ => no_stray_backslash t (S d)
-      end
-    else if N.eqb c c_rbrace then no_stray_backslash t (pred d)
-    else match d with
-         | O => if is_alpha c then true else no_stray_backslash t d
-         | 1 => if N.eqb c c_bslash then false else no_stray_backslash t d
-         | _ => no_stray_backslash t d
-         end
-  end.
 
 (* ---- the separator characters of a name: whitespace, tie, comma, and the backslash (of a control
         space); [content] is what is left of a string when they are removed ---- *)
